@@ -289,17 +289,10 @@ def run_stage(prop, tier, seed, stage, nshards_default):
                 # a hang has already been confirmed alone in this stage: further trips of the
                 # in-process watchdog are recorded directly and the shard is resumed
                 res["violations"].append({"sig": "hang", "sub": sub, "idx": idx, "seed": seed, "variant": variant, "detail": {"what": "case exceeded the in-process watchdog (an earlier one was confirmed alone)", "rc": r["rc"]}})
-                restarts += 1
-                if restarts > 3:
-                    # the verdict of this stage is already "violated"; what is left of this
-                    # shard is not explored (said in the notes, the evidence counts only what ran)
-                    res["notes"].append(f"shard {r['shard']}: {restarts} cases hung; its remaining cases were not run (a hang is already confirmed)")
-                    break
-                cur_dir = os.path.join(WORK, "logs", prop, name + f"-resume-{r['shard']}-{restarts}")
-                r = run_shards(variant, prop, tier, seed, nshards, cur_dir, stage.get("args", []) + ["--resume-after", sub, str(idx)], timeout_s, env_extra, shard_ids=[r["shard"]], wrapper=stage.get("wrapper"))[0]
-                if r["json"] is not None:
-                    results.append(r)
-                continue
+                # the verdict of this stage is already "violated": what is left of this shard
+                # is not explored (said in the notes; the evidence counts only what ran)
+                res["notes"].append(f"shard {r['shard']}: case {sub}/{idx} hung as well; its remaining cases were not run (a hang is already confirmed)")
+                break
             solo_env = env_extra
             if suspected_hang:
                 # a suspected hang is confirmed alone with a 10x larger per-case limit
